@@ -349,7 +349,7 @@ func genReady(t *rapid.T, g int, m *gm) Step {
 	default:
 		first := last + 1
 		lowest := max(m.hs.Commit, m.floor()) + 1
-		if what <= 9 && lowest <= last {
+		if what <= 12 && lowest <= last {
 			// conflicting suffix overwrite: needs a term above the one stored at `first`
 			cand := lowest + uint64(rapid.IntRange(0, int(last-lowest)).Draw(t, "ovw"))
 			if old, _ := m.termAt(cand); old < hs.Term {
@@ -381,7 +381,7 @@ func genReady(t *rapid.T, g int, m *gm) Step {
 	} else if len(s.Terms) > 0 {
 		lastAfter = s.First + uint64(len(s.Terms)) - 1
 	}
-	if s.Snap == nil && lastAfter > hs.Commit && rapid.IntRange(0, 2).Draw(t, "commitmove") > 0 {
+	if s.Snap == nil && lastAfter > hs.Commit && rapid.IntRange(0, 2).Draw(t, "commitmove") == 0 {
 		hs.Commit += uint64(rapid.IntRange(1, int(lastAfter-hs.Commit)).Draw(t, "commit"))
 	}
 	if hs != m.hs {
@@ -389,8 +389,8 @@ func genReady(t *rapid.T, g int, m *gm) Step {
 		s.HS = &h
 	}
 	// compaction after apply
-	if hs.Commit > 1 && rapid.IntRange(0, 3).Draw(t, "compact") == 0 {
-		s.Applied = uint64(rapid.IntRange(1, int(hs.Commit)).Draw(t, "applied"))
+	if hs.Commit > 1 && rapid.IntRange(0, 2).Draw(t, "compact") == 0 {
+		s.Applied = hs.Commit - uint64(rapid.IntRange(0, int(min(hs.Commit-1, 2))).Draw(t, "appliedlag"))
 		s.Retain = uint64(rapid.IntRange(1, 3).Draw(t, "retain"))
 	}
 	if len(s.subs()) == 0 {
